@@ -23,7 +23,7 @@ class MethodSpec:
         self.self_lt = None
         self.nested = []          # (impl blocks) nested dependency calls: (method, fn_id, arg, is_async)
         self.pre = ""             # extra statements at the start of an implementation body
-        self.typed_recv = False   # write the receiver as `self: &Self`
+        self.typed_recv = False   # write the receiver as `self: &Self` / `self: &'a Self`
 
     def generics_text(self, extra_first=None):
         items = list(self.lifetimes)
@@ -49,8 +49,8 @@ class MethodSpec:
 
     def trait_sig(self):
         recv = "&%sself" % ((self.self_lt + " ") if self.self_lt else "")
-        if self.typed_recv and not self.self_lt:
-            recv = "self: &Self"
+        if self.typed_recv:
+            recv = "self: &%sSelf" % ((self.self_lt + " ") if self.self_lt else "")
         ps = [recv] + [p.decl() for p in self.params]
         return "%sfn %s%s(%s)%s" % ("async " if self.is_async else "", self.name, self.generics_text(), ", ".join(ps), self.ret_text())
 
@@ -122,6 +122,7 @@ def random_method(rng, name, allow_async=True, allow_generic=True, dyn_safe=Fals
         if any(p.ty.key in ("str", "refi", "mutref") for p in m.params) or rng.random() < 0.4:
             m.lifetimes.insert(0, "'a")
             m.self_lt = "'a"
+            m.typed_recv = m.typed_recv or rng.random() < 0.4   # `self: &'a Self`
     if m.ret == "generic":
         bounds = ["::core::fmt::Debug"] + (["::core::marker::Send"] if m.is_async else [])
         m.mgenerics.append(("M", bounds))
@@ -146,6 +147,7 @@ class TraitSpec:
         self.generic = False          # trait Tr<G: Clone + Debug>
         self.const_pos = None         # None | "before" | "after": a const generic parameter N before / after G (or alone)
         self.supers = []
+        self.trailing_plus = False    # `trait Tr: A + B + {` (legal; what `$($sup +)*` in a macro_rules body produces)
         self.where = []
         self.methods = []
         self.async_trait = None       # attribute text or None
@@ -168,7 +170,7 @@ class TraitSpec:
         if self.async_trait:
             L.append(self.async_trait)
         head = "%s%strait %s%s%s%s {" % ((self.vis + " ") if self.vis else "", "unsafe " if self.is_unsafe else "", self.name,
-                                        self.generics_text(), (": " + " + ".join(self.supers)) if self.supers else "",
+                                        self.generics_text(), (": " + " + ".join(self.supers) + (" +" if self.trailing_plus else "")) if self.supers else "",
                                         (" where " + ", ".join(self.where)) if self.where else "")
         L.append(head)
         for m in self.methods:
@@ -207,6 +209,8 @@ def random_trait(rng, name="Tr", dyn_safe=False, allow_async=True, with_async_tr
         t.supers.append(rng.choice(["::core::marker::Send", "::core::marker::Sync", "::core::marker::Sized"]) if not dyn_safe else "::core::marker::Send")
     if rng.random() < 0.2 and t.generic:
         t.where.append("G: ::core::marker::Sized")
+    if t.supers and rng.random() < 0.25:
+        t.trailing_plus = True
     return t
 
 
